@@ -25,6 +25,13 @@ MAX_CTX = 5
 STATEFUL_MARKS = ['\\mv', '\\mw', '\\mz', '\\mAv', '!v', '{evv}', '\\sv', '\\sc', '\\st', '{esv}', '\\xa',
                   '\\xb', '\\xc', '\\verb', '\\lv', '{lverb}', '{verbatim}', '{lstlisting}', '{ev}']
 ABORT_KINDS = ['strict_error', 'callback', 'recursion', 'interrupt']
+MATHY_MARKS = ['{equation}', '{em}', '\\text', '\\mbox', '\\emph', '$', '\\(', '\\[']
+MATHY_SNIPPETS = {
+    'K0': [' \\begin{equation} a % c\n b \\end{equation}', ' $x \\text{y % z\n} w$', ' \\begin{align}p&q % r\n\\end{align}',
+           ' \\mbox{u $v % w\n$}'],
+    'K1': [' \\begin{em} a % c\n b \\end{em}', ' $x % y\n$ \\begin{em}z\\end{em}'],
+    'K2': [' \\begin{em} a % c\n b \\end{em}', ' \\begin{em}\\sva{q{r}} % s\n\\end{em}'],
+}
 
 ASSUMPTIONS = [
     "a process that has imported pylatexenc and then forked is taken as equivalent to a fresh interpreter "
@@ -176,6 +183,29 @@ def generate(rng, tier, run):
                     d = rng.choice([20, 40, 60])
                     doc = '{' * d + 'a \\mb{b}' + '}' * d
                 ops.append(['abort', ci, doc, 'interrupt', rng.randint(1, 70 * len(doc) + 60)])
+        elif x < 0.645:
+            mathy = [d for d in pool if any(m in d for m in MATHY_MARKS)]
+            d2 = rng.choice(mathy) if mathy and rng.random() < 0.8 else doc
+            if rng.random() < 0.5:
+                d2 = d2 + rng.choice(MATHY_SNIPPETS.get(docgen.base_kind(recipes[ci]), MATHY_SNIPPETS['K0']))
+            # a user's LatexWalker subclass with its own parsing-state event handler, and
+            # (usually right after or before) the plain walker on the same document
+            ops.append(['parse', ci, d2, tolerant, ['general', 'nocomments-in-math']])
+            if rng.random() < 0.7:
+                ops.append(['parse', ci, d2, tolerant, ['general']])
+        elif x < 0.655:
+            # an argument that is looked for but not there (after skipped comments / white space),
+            # then a document in which the next argument is missing altogether
+            k1 = docgen.base_kind(recipes[ci]) in ('K1', 'K2')
+            m = rng.choice(['\\mb', '\\mm', '\\mx*', '\\my[o]']) if k1 else \
+                rng.choice(['\\textbf', '\\emph', '\\textit', '\\sqrt[3]'])
+            a = rng.choice(['{%s %% c\n} tail', 'x {%s  \n } y', '%s %% d\n', '$%s %% e\n$ z', '[%s %%f\n]']) % m
+            b = rng.choice(['see %s', 'a {b} %s', '%s', '{%s}', 'p %s %% g'])  % m
+            t2 = rng.random() < 0.5
+            ops.append(['parse', ci, a, t2, ['general']])
+            if rng.random() < 0.3:
+                ops.append(['noise', 'encode', 'x'])
+            ops.append(['parse', ci, b, rng.random() < 0.5, ['general']])
         elif x < 0.66:
             ops.append(['parse', ci, docgen.token_soup(rng), tolerant, ['general']])
         elif x < 0.70:
@@ -188,17 +218,19 @@ def generate(rng, tier, run):
 # --------------------------------------------------------------------------
 # executing one operation against a context object (history and reference)
 
-def _walker(ctx, recipe_kind, doc, tolerant):
+def _walker(ctx, recipe_kind, doc, tolerant, custom=None):
+    kw = {'tolerant_parsing': tolerant}
+    if custom:
+        kw['sim_custom'] = custom        # a walker subclass with its own parsing-state event handler
     if recipe_kind == 'KD':
-        return simparse.make_walker(doc, tolerant_parsing=tolerant)
+        return simparse.make_walker(doc, **kw)
     if recipe_kind in ('KM', 'KG'):
         # pylatexenc-1 style: a long-lived macro dictionary given to every walker
-        return simparse.make_walker(doc, macro_dict=ctx, tolerant_parsing=tolerant)
+        return simparse.make_walker(doc, macro_dict=ctx, **kw)
     if recipe_kind == 'KT':
         # ... or a temporary dictionary built inline for this one walker
-        return simparse.make_walker(doc, macro_dict=docgen.macro_dict_variant(len(doc)),
-                                    tolerant_parsing=tolerant)
-    return simparse.make_walker(doc, latex_context=ctx, tolerant_parsing=tolerant)
+        return simparse.make_walker(doc, macro_dict=docgen.macro_dict_variant(len(doc)), **kw)
+    return simparse.make_walker(doc, latex_context=ctx, **kw)
 
 
 def _guarded(fn):
@@ -220,9 +252,9 @@ def _guarded(fn):
 KEEP = {'on': False, 'items': []}     # history process only: results kept alive for a final re-dump
 
 
-def parse_general(ctx, kind, doc, tolerant, clock=None):
+def parse_general(ctx, kind, doc, tolerant, clock=None, custom=None):
     from pylatexenc.latexnodes.parsers import LatexGeneralNodesParser
-    w = _walker(ctx, kind, doc, tolerant)
+    w = _walker(ctx, kind, doc, tolerant, custom)
 
     def go():
         nodes, delta = w.parse_content(LatexGeneralNodesParser())
@@ -241,7 +273,7 @@ def do_op(ctx, kind, op, clock=None):
     if op[0] == 'parse':
         _, _, doc, tolerant, entry = op
         if entry[0] == 'general':
-            return parse_general(ctx, kind, doc, tolerant, clock)
+            return parse_general(ctx, kind, doc, tolerant, clock, entry[1] if len(entry) > 1 else None)
         w = _walker(ctx, kind, doc, tolerant)
         if entry[0] == 'legacy':
             def go():
